@@ -44,6 +44,7 @@ EXPLAINED_BASE_DIFFS = {
         "more conservative of the two clean error classes) instead of errOpaque (`generic error parameter`).  Needed so that "
         "replacing thirty closures by one such helper (seeded-harmless/H2-p4) changes no class." % (g, g)
     for f, g in (("groups", "group"), ("messages", "message"), ("welcomes", "welcome"))}
+EXPLAINED_BASE_DIFFS["writeSeqStatus"] = "new fact: 1 = tools/writeseq.py translated every case"
 EXPLAINED_BASE_DIFFS["writeSeq"] = ("new fact (tools/writeseq.py, DESIGN §13.15): the ordered durable write steps of every mdk-core entry point; "
                                     "the original translators did not extract it")
 
